@@ -23,14 +23,15 @@ DEPENDS = {
                             "released or replaced while the region is live")},
     "C07": {"C06": (["R4"], "the final forward is guarded by nothing but the addon/validity verdicts"),
             "C19": (["R6"], "one subscriber's (un)subscription must not skip another subscriber")},
-    "C08": {"C09": (["R6"], "round trip in plain-data mode needs the pod flag to reach every delegated decoder")},
-    "C09": {"C08": (["R1", "R2", "R3", "R6", "R7", "R8", "R9", "R10", "R11", "R12"], "subfield serializers are built from the combinators"),
+    "C08": {"C09": (["R6", "R8"], "round trip in plain-data mode needs the pod flag to reach every delegated decoder; "
+                                   "a size query must not see a half-computed cached size")},
+    "C09": {"C08": (["R1", "R2", "R3", "R6", "R7", "R8", "R9", "R10", "R11", "R12", "R13", "R14"], "subfield serializers are built from the combinators"),
             "C10": (["R1", "R2", "R3", "R4"], "quantised members of subfield templates")},
     "C10": {},
     "C11": {"C09": (["R2", "R4", "R5", "R6", "R7"], "beautified text goes through the subfield serializers (pod form)"),
             "C10": (["R1", "R3", "R4"], "pretty-printed quantised / fixed-point subfields must re-encode exactly")},
     "C12": {"C18": (["R6"], "LLSDMessageSerializer ends in Message.from_dict / to_dict: key agreement")},
-    "C13": {"C08": (["R1", "R2", "R3", "R6", "R7", "R8", "R9", "R10", "R11", "R12"], "both decoders share the combinator sub-templates")},
+    "C13": {"C08": (["R1", "R2", "R3", "R6", "R7", "R8", "R9", "R10", "R11", "R12", "R13", "R14"], "both decoders share the combinator sub-templates")},
     "C14": {"C13": (["R1", "R2"], "the tracker consumes the hand-written compressed decoder"),
             "C07": (["R2"], "handlers run under Event.notify's isolation")},
     "C15": {"C07": (["R8"], "a stale taking subscriber on http_message_handler take()s flows that nobody resumes"),
@@ -40,6 +41,6 @@ DEPENDS = {
     "C18": {"C12": (["R1"], "logged EQ events are decoded by LLSDMessageSerializer without mutating the retained event")},
     "C19": {"C01": (["R4", "R6", "R8"], "a packet whose header cannot be parsed is neither acked nor delivered"),
             "C07": (["R2"], "delivery to each subscriber needs Event.notify's isolation")},
-    "C20": {"C08": (["R1", "R2", "R3", "R8", "R9", "R10", "R11", "R12"], "mesh and animation codecs are built from the combinators"),
-            "C12": (["R2", "R3", "R5", "R6"], "inventory LLSD flavours go through the LLSD codecs")},
+    "C20": {"C08": (["R1", "R2", "R3", "R8", "R9", "R10", "R11", "R12", "R13", "R14"], "mesh and animation codecs are built from the combinators"),
+            "C12": (["R2", "R3", "R5", "R6", "R7"], "inventory LLSD flavours go through the LLSD codecs")},
 }
